@@ -17,8 +17,9 @@ RULE = ("stream pubd (C10 mix): seeded request sequences against the real Reposi
 
 def check(ctx):
     # order of the two persisted store calls of remove_publisher, regenerated from pubd/manager.rs
-    vlib.translate(ctx, [("event_tasks", "EventTasks.lean")])
-    vlib.prove(ctx, ["KrillModel.Props.C10", "KrillModel.Props.C10Removal"])
+    # body of CurrentObjects::verify_delta_applies (three loops) regenerated from pubd/rrdp.rs; C10Src: = the model's verifyDelta
+    vlib.translate(ctx, [("event_tasks", "EventTasks.lean"), ("pure_fns:C10", "PureFns.lean")])
+    vlib.prove(ctx, ["KrillModel.Props.C10", "KrillModel.Props.C10Removal", "KrillModel.Props.C10Src"])
     found = False
     if vlib.build_harness(ctx, ["pubd"]):
         jobs, n, length = (8, 30, 12) if ctx.tier == "quick" else (12, 600, 16)
@@ -62,5 +63,5 @@ MANIFEST = {
             "serialised aggregate state through a cfg-gated export). Crypto (CMS validation of RFC 8181 messages) is not part of "
             "this check (C12). Hash-map order is canonicalised by sorting on both sides.",
     "technique": "Lean 4 proof (induction over elements/requests, invariants, iff-characterisations, witnesses by decide) + "
-                 "correspondence check with oracle on the implementation's trace + source translator (order of the persisted store calls of remove_publisher; removal_recoverable over the generated order)",
+                 "correspondence check with oracle on the implementation's trace + source translator (order of the persisted store calls of remove_publisher; removal_recoverable over the generated order; body of CurrentObjects::verify_delta_applies = the model's verifyDelta: gen_verify_delta_applies_eq_model)",
 }
